@@ -18,7 +18,7 @@ theorem rawStep_low (k : RawK) {m : Nat} (c : UInt8) (hm : m ≤ 1) (hm1 : m = 1
     simp [rstep, HtmlTok.rawStep, this]
 
 /-- the reference state one byte after a state inside raw content -/
-theorem raw_rs1 {text : Bytes} {n : Nat} (H : Hole text n) {pos : Nat} {k : RawK} {m : Nat}
+theorem raw_rs1 {text : Bytes} {lo n : Nat} (H : Hole text lo n) {pos : Nat} {k : RawK} {m : Nat}
     (hrr : rs text pos = .raw k m) (hm : m ≤ 1) (hm1 : m = 1 → text[pos]? ≠ some 0x2f)
     (hlt : pos < n) {c : UInt8} (hc : text[pos]? = some c) :
     (k.step c).isBad = false ∧ rs text (pos + 1) = .raw (k.step c) (if c = 0x3c then 1 else 0) := by
@@ -54,7 +54,7 @@ theorem finish_tail {U : Unicode} {text : Bytes} {n : Nat} {s s1 : CSt} {c : UIn
   · exact absurd hc1 hne
 
 /-- at a `<` whose end-tag test succeeds -/
-theorem raw_lt_jump {U : Unicode} {text : Bytes} {n : Nat} (H : Hole text n) {s s1 : CSt} {k : RawK} {m : Nat}
+theorem raw_lt_jump {U : Unicode} {text : Bytes} {lo n : Nat} (H : Hole text lo n) {s s1 : CSt} {k : RawK} {m : Nat}
     (hlt : s.pos < n) (hc : text[s.pos]? = some 0x3c)
     (hrr : rs text s.pos = .raw k m) (hm : m ≤ 1) (hm1 : m = 1 → text[s.pos]? ≠ some 0x2f)
     (hE : EndTagAt k.name (text.drop s.pos))
@@ -75,7 +75,7 @@ theorem raw_lt_jump {U : Unicode} {text : Bytes} {n : Nat} (H : Hole text n) {s 
   rw [hnm]
 
 /-- at a `<` whose end-tag test fails: the next byte is not `/` -/
-theorem raw_lt_stay {text : Bytes} {n : Nat} (H : Hole text n) {pos : Nat} {k : RawK} {m : Nat}
+theorem raw_lt_stay {text : Bytes} {lo n : Nat} (H : Hole text lo n) {pos : Nat} {k : RawK} {m : Nat}
     (hlt : pos < n) (hc : text[pos]? = some 0x3c)
     (hrr : rs text pos = .raw k m) (hm : m ≤ 1) (hm1 : m = 1 → text[pos]? ≠ some 0x2f)
     (hE : ¬ EndTagAt k.name (text.drop pos)) :
@@ -164,7 +164,7 @@ theorem JsRef_lt {text : Bytes} {s : CSt} {k : JsS} (hj : JsRef text s k)
       rcases h4 with rfl | rfl <;> simp [jsStep, jsStr]
     rw [this]; exact ⟨h1, h2, h3, h4⟩
 
-theorem js_lt {U : Unicode} {text : Bytes} {n : Nat} (H : Hole text n) {s : CSt} (hlt : s.pos < n)
+theorem js_lt {U : Unicode} {text : Bytes} {lo n : Nat} (H : Hole text lo n) {s : CSt} (hlt : s.pos < n)
     {k : JsS} {m : Nat} (hc : text[s.pos]? = some 0x3c)
     (hrr : rs text s.pos = .raw (.js k) m) (hm : m ≤ 1) (hm1 : m = 1 → text[s.pos]? ≠ some 0x2f)
     (htc : s.tagCtx = ContextHTML) (hu : s.url = false) (hj : JsRef text s k) : StepOK U text n s := by
@@ -182,7 +182,7 @@ theorem js_lt {U : Unicode} {text : Bytes} {n : Nat} (H : Hole text n) {s : CSt}
 
 /-- the tail when the reference states after the byte (and after a CR following a LF) carry no
 condition on the text -/
-theorem js_tail_free {U : Unicode} {text : Bytes} {n : Nat} (H : Hole text n) {s s1 : CSt} {c : UInt8}
+theorem js_tail_free {U : Unicode} {text : Bytes} {lo n : Nat} (H : Hole text lo n) {s s1 : CSt} {c : UInt8}
     (hlt : s.pos < n) (hc : text[s.pos]? = some c) (hsw : ctxSwitchP U text s c = (s1, true))
     (hpos : s1.pos = s.pos) (htc : s1.tagCtx = ContextHTML) (hu : s1.url = false) {k' : JsS}
     (hr1 : rs text (s.pos + 1) = .raw (.js k') 0) (hJ : ∀ p, JsRef text { s1 with pos := p } k')
@@ -218,7 +218,7 @@ theorem jsCode_cases (ro : Bool) (c : UInt8) (h1 : c ≠ 0x22) (h2 : c ≠ 0x27)
     · split <;> exact ⟨_, rfl⟩
 
 /-- in code position (lexer: context JS, no comment), a byte other than `<` and `/` -/
-theorem js_code_other {U : Unicode} {text : Bytes} {n : Nat} (H : Hole text n) {s : CSt} (hlt : s.pos < n)
+theorem js_code_other {U : Unicode} {text : Bytes} {lo n : Nat} (H : Hole text lo n) {s : CSt} (hlt : s.pos < n)
     {c : UInt8} (hc : text[s.pos]? = some c) (h3c : c ≠ 0x3c) (h2f : c ≠ 0x2f)
     (hctx : s.ctx = ContextJS) (hjc : s.jsComment = 0) (hq : s.quote = 0)
     (htc : s.tagCtx = ContextHTML) (hu : s.url = false) (ro : Bool) (hb : jsCode ro c ≠ .bad)
@@ -249,7 +249,7 @@ theorem js_code_other {U : Unicode} {text : Bytes} {n : Nat} (H : Hole text n) {
     rw [this]; exact ⟨hctx, hjc, hq⟩
 
 /-- in code position, a `/` -/
-theorem js_code_slash {U : Unicode} {text : Bytes} {n : Nat} (H : Hole text n) {s : CSt} (hlt : s.pos < n)
+theorem js_code_slash {U : Unicode} {text : Bytes} {lo n : Nat} (H : Hole text lo n) {s : CSt} (hlt : s.pos < n)
     (hc : text[s.pos]? = some 0x2f)
     (hctx : s.ctx = ContextJS) (hjc : s.jsComment = 0) (hq : s.quote = 0)
     (htc : s.tagCtx = ContextHTML) (hu : s.url = false) (ro : Bool)
@@ -293,7 +293,7 @@ theorem js_code_slash {U : Unicode} {text : Bytes} {n : Nat} (H : Hole text n) {
 
 /-! ## comments -/
 
-theorem js_line {U : Unicode} {text : Bytes} {n : Nat} (H : Hole text n) {s : CSt} (hlt : s.pos < n)
+theorem js_line {U : Unicode} {text : Bytes} {lo n : Nat} (H : Hole text lo n) {s : CSt} (hlt : s.pos < n)
     {c : UInt8} (hc : text[s.pos]? = some c) (h3c : c ≠ 0x3c)
     (hctx : s.ctx = ContextJS) (hjc : s.jsComment = 1) (hq : s.quote = 0)
     (htc : s.tagCtx = ContextHTML) (hu : s.url = false) (hb : jsStep .lineC c ≠ .bad)
@@ -324,7 +324,7 @@ theorem js_line {U : Unicode} {text : Bytes} {n : Nat} (H : Hole text n) {s : CS
     intro h; exact absurd h hnl.1
 
 /-- in a block comment (reference: `blockC`, or `blockCStar` when the byte is not `/`) -/
-theorem js_block {U : Unicode} {text : Bytes} {n : Nat} (H : Hole text n) {s : CSt} (hlt : s.pos < n)
+theorem js_block {U : Unicode} {text : Bytes} {lo n : Nat} (H : Hole text lo n) {s : CSt} (hlt : s.pos < n)
     {c : UInt8} (hc : text[s.pos]? = some c) (h3c : c ≠ 0x3c)
     (hctx : s.ctx = ContextJS) (hjc : s.jsComment = 2) (hq : s.quote = 0)
     (htc : s.tagCtx = ContextHTML) (hu : s.url = false) {k : JsS}
@@ -372,7 +372,7 @@ theorem js_block {U : Unicode} {text : Bytes} {n : Nat} (H : Hole text n) {s : C
 
 /-! ## string literals -/
 
-theorem js_string {U : Unicode} {text : Bytes} {n : Nat} (H : Hole text n) {s : CSt} (hlt : s.pos < n)
+theorem js_string {U : Unicode} {text : Bytes} {lo n : Nat} (H : Hole text lo n) {s : CSt} (hlt : s.pos < n)
     {c : UInt8} (hc : text[s.pos]? = some c) (h3c : c ≠ 0x3c)
     (hctx : s.ctx = ContextJSString) (hjc : s.jsComment = 0) {q : UInt8} (hq : s.quote = q)
     (hqq : q = 0x22 ∨ q = 0x27) (htc : s.tagCtx = ContextHTML) (hu : s.url = false) {k : JsS}
@@ -452,7 +452,7 @@ theorem js_string {U : Unicode} {text : Bytes} {n : Nat} (H : Hole text n) {s : 
 
 /-! ## one step inside a script element -/
 
-theorem step_js {U : Unicode} {text : Bytes} {n : Nat} (H : Hole text n) {s : CSt} (hlt : s.pos < n)
+theorem step_js {U : Unicode} {text : Bytes} {lo n : Nat} (H : Hole text lo n) {s : CSt} (hlt : s.pos < n)
     {k : JsS} {m : Nat} (hrr : rs text s.pos = .raw (.js k) m) (hm : m ≤ 1)
     (hm1 : m = 1 → text[s.pos]? ≠ some 0x2f) (htc : s.tagCtx = ContextHTML) (hu : s.url = false)
     (hj : JsRef text s k) : StepOK U text n s := by
